@@ -58,7 +58,7 @@ ShrVal(x, y) == IF Small(y, 100000) THEN IRsh(x, ToInt(y)) ELSE IF x.neg THEN Mi
 VShr(r) ==
   IF r.y.neg THEN MustFail(r.res)
   ELSE IF ILt(r.y, P31)
-       THEN Req(r.res, LAMBDA v : VIsInt(v, ShrVal(r.x, r.y)) /\ (Small(r.y, 100000) => RshOK(r.x, ToInt(r.y), ObsInt(v))))
+       THEN Req(r.res, LAMBDA v : VIsInt(v, ShrVal(r.x, r.y)) /\ (Small(r.y, 2000) => RshOK(r.x, ToInt(r.y), ObsInt(v))))
        ELSE Tol(r.res, LAMBDA v : VIsInt(v, ShrVal(r.x, r.y)))
 
 \* typed operand: three-way comparison in the total order
@@ -156,7 +156,11 @@ Verdict(r) ==
     [] r.op = "shl"   -> VShl(r)
     [] r.op = "shr"   -> VShr(r)
     [] r.op = "cmp"   -> VCmp(r)
-    [] r.op = "lit"   -> Req(r.res, LAMBDA v : VIsInt(v, FromDigits(FALSE, r.digs, r.base)))
+    [] r.op = "lit"   -> \* integer literal of the source text; the scanner rejects octal and binary
+                         \* literals >= 2^63 ("invalid int literal"): a failure, tolerated and reported
+                         LET x == FromDigits(FALSE, r.digs, r.base)
+                         IN IF r.base \in {2, 8} /\ IGe(x, Pow2(63)) THEN Tol(r.res, LAMBDA v : VIsInt(v, x))
+                            ELSE Req(r.res, LAMBDA v : VIsInt(v, x))
     [] r.op = "parse" -> VParse(r)
     [] r.op = "fmt"   -> Req(r.res, LAMBDA v : VIsStr(v, FormatInt(r.x, FmtBase(r.f), r.f = "X")))
     [] r.op = "fmtf"  -> IF ~IsFinite(r.a) THEN MustFail(r.res)
@@ -165,7 +169,10 @@ Verdict(r) ==
                                 ELSE Req(r.res, LAMBDA v : VIsFloat(v) /\ IsFloatOfInt(v, r.x) /\ FSame(v, FloatOfInt(r.x)))
     [] r.op = "int_of_float" -> IF ~IsFinite(r.a) THEN MustFail(r.res)
                                 ELSE Req(r.res, LAMBDA v : VIsInt(v, FTrunc(r.a)))
-    [] r.op = "float_of_str" -> Req(r.res, LAMBDA v : VIsFloat(v) /\ IsNearestDec(v, r.neg, r.digs, r.e10))
+    [] r.op = "float_of_str" -> \* decimal text beyond the finite range: an infinity or a failure
+                                IF IsNearestDec(IF r.neg THEN NegInf ELSE PosInf, r.neg, r.digs, r.e10)
+                                THEN Tol(r.res, LAMBDA v : VIsFloat(v) /\ IsInf(v) /\ v.s = (IF r.neg THEN 1 ELSE 0))
+                                ELSE Req(r.res, LAMBDA v : VIsFloat(v) /\ IsNearestDec(v, r.neg, r.digs, r.e10))
     [] r.op = "math"  -> VMath(r)
     [] r.op = "mixed" -> VMixed(r)
     [] r.op = "dict_in" ->       \* (f in {x: 1}, x in {f: 1}, len(set([x, f]))): equal keys hash alike
